@@ -106,6 +106,26 @@ def orderPrice (size : Nat) (replica : Int) (duration : Nat) : TxM Int :=
 
 def BAR : Nat := 124  -- '|'
 
+/-- the last part of `Store`: the new order is attached to the data model — an existing model must have no
+    update in flight and its latest committed version must be the base the request names ("avoid version
+    conflicts"); otherwise a new model is created -/
+def storeAttach (s : State) (m : StoreMsg) (order : Order) (lastCommitId commitId : Bytes) : TxM State := do
+  let p := m.p
+  match s.getMeta p.dataId with
+  | some md =>
+    if md.orderId > order.id then throw "version conflict"
+    let some lastOrder := s.getOrder md.orderId | throw "invalid last order"
+    if lastOrder.status ≠ OrderCompleted then throw "unexpected last order"
+    if !containsB md.commit lastCommitId then throw "invalid commitId"
+    softTx (updateMetaStatusAndCommit s order)
+  | none =>
+    let md : Metadata := {
+      dataId := p.dataId, owner := p.owner, alias := p.alias, groupId := p.groupId, orderId := order.id,
+      tags := [], cid := m.cid, commits := [], extendInfo := 0, update := false, commit := commitId, rule := 0,
+      duration := p.duration, createdAt := toU64 s.h, readonlyDids := p.readonlyDids, readwriteDids := [],
+      status := MetaNew, orders := [] }
+    softTx' (newMeta s order md)
+
 def saoStore (e : Env) (s : State) (m : StoreMsg) : TxM State := do
   let p := m.p
   if !m.sigValid then throw "invalid signature"
@@ -163,20 +183,7 @@ def saoStore (e : Env) (s : State) (m : StoreMsg) : TxM State := do
   let order := { order with amount := amount }
   let (order, s) := newOrder s order (sps.map (·.creator))
   let s := if isProvider then setTimeoutOrderBlock s order.id (addU64 order.createdAt order.timeout) else s
-  match s.getMeta p.dataId with
-  | some md =>
-    if md.orderId > order.id then throw "version conflict"
-    let some lastOrder := s.getOrder md.orderId | throw "invalid last order"
-    if lastOrder.status ≠ OrderCompleted then throw "unexpected last order"
-    if !containsB md.commit lastCommitId then throw "invalid commitId"
-    softTx (updateMetaStatusAndCommit s order)
-  | none =>
-    let md : Metadata := {
-      dataId := p.dataId, owner := p.owner, alias := p.alias, groupId := p.groupId, orderId := order.id,
-      tags := [], cid := m.cid, commits := [], extendInfo := 0, update := false, commit := commitId, rule := 0,
-      duration := p.duration, createdAt := toU64 s.h, readonlyDids := p.readonlyDids, readwriteDids := [],
-      status := MetaNew, orders := [] }
-    softTx' (newMeta s order md)
+  storeAttach s m order lastCommitId commitId
 
 /-- who may hand a pending order to providers: its gateway itself, or one of the gateway's addresses -/
 def readyAllowed (s : State) (creator msgProvider : Addr) (o : Order) : Bool :=
